@@ -191,7 +191,8 @@ func generateMode(key echx.KeyPair, b base, thorough, retry bool) (out []fault) 
 	}
 	// F6 inner does not offer TLS 1.3
 	if !b.Compress {
-		for _, v := range [][]uint16{{0x0303}, {0x0303, 0x0302}, nil} {
+		// (GREASE values, RFC 8701, are not versions: a list of GREASE + TLS 1.2 does not offer TLS 1.3)
+		for _, v := range [][]uint16{{0x0303}, {0x0303, 0x0302}, nil, {0x7a7a, 0x0303}, {0x0303, 0xfafa}, {0x0a0a}} {
 			s6 := s
 			s6.EncInner = slices.Clone(s.EncInner)
 			for i, e := range s6.EncInner {
